@@ -546,6 +546,10 @@ fn handle(req: &J) -> Result<J, String> {
             let verdict = match mode {
                 "flat" => rule.matches(&Flat(fields)),
                 "object" => rule.matches(&Obj(fields)),
+                "hashmap" => {
+                    let hm: std::collections::HashMap<String, V> = fields.into_iter().collect();
+                    rule.matches(&hm)
+                }
                 _ => return Err("bad mode".into()),
             };
             Ok(json!({"ok": true, "verdict": verdict}))
@@ -639,6 +643,11 @@ fn handle(req: &J) -> Result<J, String> {
         "find" => {
             let key = bytes_to_string(&req["key"])?;
             let fields = to_fields(&req["doc"]["$obj"])?;
+            if req["mode"].as_str() == Some("hashmap") {
+                let hm: std::collections::HashMap<String, V> = fields.into_iter().collect();
+                let r = tau_engine::Object::find(&hm, &key);
+                return Ok(json!({"ok": true, "found": r.is_some(), "value": r.map(|v| show_value(&v))}));
+            }
             let o = Obj(fields);
             let r = tau_engine::Object::find(&o, &key);
             Ok(json!({"ok": true, "found": r.is_some(), "value": r.map(|v| show_value(&v))}))
